@@ -679,6 +679,15 @@ func (c *Ctx) atCallClauses(st *State, fr *Frame, cc *ssa.CallCommon, instr ssa.
 			g = env.evalBool(cl.E)
 		}()
 		c.oblige(st, fr, "atcall", cl.Site, cl.Label, instr.Pos(), g, cl.Props, src)
+		if g.S != "false" && c.ownClause(fr, cl.Props) {
+			// what was proved element by element (===) is from here on known as an equality of the sequences themselves
+			// (sequences are extensional, A-SEQ), so a later clause may use it under an uninterpreted function
+			func() {
+				defer func() { recover() }()
+				env.goal = false
+				st.assume(env.evalBool(cl.E))
+			}()
+		}
 	}
 }
 
